@@ -117,6 +117,9 @@ def sort_data_models(  # noqa: PLR0912
 
     unresolved_references: list[DataModel] = []
     for model in unsorted_data_models:
+        if any(b.reference and b.reference.path == model.path for b in model.base_classes):
+            msg = f"A Parser can not resolve classes: circular base classes in [{model.path}]."
+            raise Exception(msg)  # noqa: TRY002
         if not model.reference_classes:
             sorted_data_models[model.path] = model
         elif model.path in model.reference_classes and len(model.reference_classes) == 1:  # only self-referencing
@@ -1101,12 +1104,14 @@ class Parser(ABC):
         models.sort(key=lambda x: x.class_name)
 
         imported = {i for v in imports.values() for i in v}
+        class_names = {model.class_name for model in models}
         model_class_name_baseclasses: dict[DataModel, tuple[str, set[str]]] = {}
         for model in models:
             class_name = model.class_name
             model_class_name_baseclasses[model] = (
                 class_name,
-                {b.type_hint for b in model.base_classes if b.reference} - {class_name},
+                # only classes of this module can (and must) be moved in front of the model
+                ({b.type_hint for b in model.base_classes if b.reference} & class_names) - {class_name},
             )
 
         changed: bool = True
